@@ -32,7 +32,7 @@ func init() {
 	register(&Prop{
 		ID:    "C08",
 		Level: "exploration",
-		Rule: "case = grid point (family ∈ {plain, plain-filtered, ordered, ordered-ties, ordered-2keys, mget, aggregate (limit pushed into the aggregate node), aggregate-ordered (limit wrapped), aggregate-all (no GROUP BY), delete, delete-filtered}, batch size B, unlimited result size R, offset s, count n, drain mode). Each case runs the statement without LIMIT and with `limit s, n` (or `limit n`) in the same mode on equal simulated stores and compares L with U[s:s+n] (ordered families: tie-aware). quick samples the grid by seed with forced inclusion of the coincidences (s a multiple/partial sum of child batch sizes, s = R, n = 0, s+n = R, s > R); thorough enumerates it completely for B ∈ {1,2,3,5,8} and the boundary values for B = 32. distinct_nontrivial counts distinct (family, mode, B, R, s, n) points with R > 0.",
+		Rule: "case = grid point (family ∈ {plain, plain-filtered, ordered, ordered-ties, ordered-2keys, mget, aggregate (limit pushed into the aggregate node), aggregate-ordered (limit wrapped), aggregate-all (no GROUP BY), delete, delete-filtered, plain-sparse, ordered-sparse, delete-sparse (few matches among many scanned rows), alias-filtered (alias filtered on and projected)}, batch size B, unlimited result size R, offset s, count n, drain mode). Each case runs the statement without LIMIT and with `limit s, n` (or `limit n`) in the same mode on equal simulated stores and compares L with U[s:s+n] (ordered families: tie-aware). quick samples the grid by seed with forced inclusion of the coincidences (s a multiple/partial sum of child batch sizes, s = R, n = 0, s+n = R, s > R); thorough enumerates it completely for B ∈ {1,2,3,5,8} and the boundary values for B = 32. distinct_nontrivial counts distinct (family, mode, B, R, s, n) points with R > 0.",
 		Assumptions: []string{
 			"the unlimited result in the same drain mode is taken as the reference (row/batch agreement is C03's property)",
 			"ORDER BY columns are text/integer with uniform dynamic type, so content-equality and the comparator's tie notion coincide",
@@ -52,7 +52,7 @@ func init() {
 			if tier == "thorough" {
 				cov["grid_points"] = len(c08Grid())
 				cov["replicas_per_grid_point"] = c08Replicas
-				cov["grid"] = "B∈{1,2,3,5,8}: R∈[0,3B+1] × s∈[0,R+2] × n∈{0,1,2,B-1,B,B+1,R,R+1}; B=32: R,s thinned to multiples of B ±1 and the ends; × 11 families × 2 drain modes"
+				cov["grid"] = "B∈{1,2,3,5,8}: R∈[0,3B+1] × s∈[0,R+2] × n∈{0,1,2,B-1,B,B+1,R,R+1}; B=32: R,s thinned to multiples of B ±1 and the ends; × 15 families × 2 drain modes"
 			}
 			return ""
 		},
@@ -62,7 +62,7 @@ func init() {
 // thorough: every grid point is executed with this many differently seeded stores/configs
 const c08Replicas = 6
 
-var c08Families = []string{"plain", "plain-filtered", "ordered", "ordered-ties", "aggregate", "aggregate-ordered", "delete", "delete-filtered", "aggregate-all", "ordered-2keys", "mget"}
+var c08Families = []string{"plain", "plain-filtered", "ordered", "ordered-ties", "aggregate", "aggregate-ordered", "delete", "delete-filtered", "aggregate-all", "ordered-2keys", "mget", "plain-sparse", "delete-sparse", "ordered-sparse", "alias-filtered"}
 
 type gridPt struct {
 	fam     int
@@ -217,6 +217,34 @@ func c08Build(r *Rng, p gridPt) *Scenario {
 		}
 		shuffle(r, ks)
 		lc.Base = "select key, value where key in " + inList(ks)
+	case "plain-sparse", "delete-sparse", "ordered-sparse":
+		// few matching rows among many scanned ones: child batches are short and
+		// whole storage chunks contain no match at all
+		for i := 0; i < p.r; i++ {
+			init = append(init, KV{fmt.Sprintf("k%03d", i), fmt.Sprintf("%04d", (i*37+11)%1000+i*1000)})
+			for j := 0; j < r.Intn(2*p.b+3); j++ {
+				init = append(init, KV{fmt.Sprintf("k%03d_%02d", i, j), "skip"})
+			}
+		}
+		for j := 0; j < r.Intn(2*p.b+2); j++ {
+			init = append(init, KV{fmt.Sprintf("k_%02d", j), "skip"})
+		}
+		switch fam {
+		case "plain-sparse":
+			lc.Base = "select key, value where key ^= 'k' & value != 'skip'"
+		case "ordered-sparse":
+			lc.Base = "select key, value where key ^= 'k' & value != 'skip' order by value desc"
+			lc.OrderCols = []int{1}
+		default:
+			lc.Base = "key ^= 'k' & value != 'skip'"
+		}
+	case "alias-filtered":
+		// an alias both filtered on and projected: the limit must slice rows, not columns
+		for i := 0; i < p.r; i++ {
+			init = append(init, KV{fmt.Sprintf("k%03d", i), fmt.Sprint(i*3 + 1)})
+		}
+		noise()
+		lc.Base = "select key, int(value) as n, upper(key) as u where key ^= 'k' & value != 'skip' & n != 99999 & u != 'ZZ'"
 	case "delete":
 		for i := 0; i < p.r; i++ {
 			init = append(init, KV{fmt.Sprintf("k%03d", i), pick(r, valuePoolInt)})
